@@ -17,7 +17,9 @@ Tokens == <<" ", "a", "ab", "b*", "a?", "AND", "OR", "NOT", "ANDNOT", "ANDMAYBE"
 Contexts == << <<"a (", " b)">>, <<"a (b ", ")">>, <<"(", ")">>, <<"a OR (", " b)">>, <<"title:(", " a) b">>,
                <<"a (", ")">>, <<"[", " TO b]">>, <<"[a TO ", "]">>, <<"<dquote>", "<dquote>">>,
                <<"<dquote>a ", "<dquote>~2">>, <<"a AND ", " AND b">>, <<"NOT ", "">>, <<"a ", "">>, <<"", " a">>,
-               <<"num:", "">>, <<"when:[", " TO]">>, <<"flag:", " a">>, <<"a ANDNOT ", "">>, <<"title:", "^2">>, <<"when:", "">> >>
+               <<"num:", "">>, <<"when:[", " TO]">>, <<"flag:", " a">>, <<"a ANDNOT ", "">>, <<"title:", "^2">>, <<"when:", "">>,
+               \* (after a prefix operator, with only white space behind; the last thing in a group)
+               <<"a NOT ", " ">>, <<"(a NOT ", " ) b">>, <<"a ", " ">>, <<"a OR ", " ">> >>
 
 NExh == atoi(IOEnv.N_EXH)
 NRand == atoi(IOEnv.N_RAND)
